@@ -2,6 +2,7 @@ package main
 
 import (
 	"fmt"
+	"sync"
 	"go/ast"
 	"go/constant"
 	"go/token"
@@ -213,9 +214,9 @@ func structName(t types.Type) string {
 	return typeKey(t)
 }
 
-var mainPkgPaths = map[string]bool{}
+var mainPkgPaths sync.Map
 
-func isMainLike(p *types.Package) bool { return mainPkgPaths[p.Path()] }
+func isMainLike(p *types.Package) bool { _, ok := mainPkgPaths.Load(p.Path()); return ok }
 
 func (x *Exec) fieldKey(structT types.Type, f *types.Var) string {
 	key := "f:" + structName(structT) + "." + f.Name()
